@@ -437,7 +437,7 @@ PROPS = {
     ),
     "C04": dict(
         module="YkProps.C04",
-        leancheck=['YkModel.Shim', 'YkProofs.Shim', 'YkProps.C04'],
+        leancheck=['YkModel.Shim', 'YkProofs.Shim', 'YkProofs.ShimReg', 'YkProps.C04'],
         runs=[dict(comp="core", quick=720, thorough=9000, extra=["-mode", "mixed"])],
         classify=cls_tagged("C04"),
         nontrivial=lambda line: '"op":"reset"' not in line,
